@@ -106,6 +106,9 @@ OPS = {
     "placeholder-missing-section": [M("pair", lambda s: setv(s, "Pair", "Al-Al", "as.buck ${No:pe} 0.3 32.0")), M("eam", lambda s: setv(s, "Species", "Al.lattice_constant", "${NoSection:x}"))],
     "placeholder-syntax": [M("pair", lambda s: setv(s, "Pair", "Al-Al", "as.buck $x 0.3 32.0")), M("pair", lambda s: setv(s, "Pair", "Al-Al", "as.buck ${ 3 0.3")),
                            M("eam", lambda s: setv(s, "Species", "Cu.atomic_mass", "$x")), M("eam", lambda s: setv(s, "Tabulation", "cutoff", "$c"))],
+    "placeholder-circular": [M("pair", lambda s: (s.insert(0, ["Variables", [["a", "${b}"], ["b", "${a}"]]]), setv(s, "Pair", "Al-Al", "as.buck ${a} 0.3 32.0"))),
+                             M("eam", lambda s: (s.insert(0, ["Variables", [["a", "1${a}"]]]), setv(s, "EAM-Embed", "Al", "as.sqrt ${a}"))),
+                             M("pair", lambda s: setv(s, "Pair", "Al-Al", "as.buck ${a:b:c} 0.3 32.0"))],
     "pair-key-no-dash": [M("pair", lambda s: rename(s, "Pair", "Al-Al", "AlAl")), M("eam", lambda s: rename(s, "Pair", "Cu-Cu", "Cu"))],
     "pair-key-two-dashes": [M("pair", lambda s: rename(s, "Pair", "Al-Cu", "Al-Cu-Fe"))],
     "adp-key-no-dash": [M("adp", lambda s: rename(s, "EAM-ADP-Dipole", "Al-Cu", "AlCu")), M("adp", lambda s: rename(s, "EAM-ADP-Quadrupole", "Cu-Cu", "Cu-Cu-Cu"))],
